@@ -168,6 +168,17 @@ CreateDeferred(p, n) ==
          /\ Ok("CreateDeferred", [s |-> s, p |-> p, n |-> n], {})
     /\ UNCHANGED <<pg, fpg, fnode, flink, held, mode, fopt, saved, w2, w2pg>>
 
+\* ObjectBase.add_default_visual_parameters (object_base.py:605-628): a text data child named "Visual Parameters";
+\* value token 3 stands for its XML text.  It is never renamed, re-valued or put in a property group by the model.
+VP == "Visual Parameters"
+AddVisual(o) ==
+    /\ Do("AddVisual") /\ Writable /\ o \in Att \cap OS /\ o \notin dirty /\ FreeSet(DS) # {}
+    /\ \A d \in kids[o] : mem[d].name # VP
+    /\ LET s == Lowest(FreeSet(DS)) IN
+         /\ Birth(s, o, VP, 3)
+         /\ Ok("AddVisual", [s |-> s, p |-> o], {s, o})
+    /\ UNCHANGED <<pg, fpg, held, mode, dirty, saved, w2, w2pg>>
+
 \* explicit identifier (C06): refused when the uid is in use by any live entity of any kind
 \* (workspace.py create_entity pre-check + weakref_utils.insert_once); accepted when the uid is free again
 CreateWithUid(u, p, n) ==
@@ -184,7 +195,7 @@ CreateWithUid(u, p, n) ==
 \* Entity.name / allow_delete setters -> Workspace.update_attribute -> H5Writer.update_field
 \* (entity.py:77-100,251-260; workspace.py:1359-1389)
 Rename(s, n) ==
-    /\ Do("Rename") /\ Writable /\ s \in Att \cap ES /\ mem[s].name # n /\ s \notin dirty
+    /\ Do("Rename") /\ Writable /\ s \in Att \cap ES /\ mem[s].name # n /\ s \notin dirty /\ mem[s].name # VP
     /\ mem' = [mem EXCEPT ![s].name = n]
     /\ fnode' = [fnode EXCEPT ![s].name = n]
     /\ fopt' = [fopt EXCEPT ![s] = TRUE]      \* H5Writer.write_attributes rewrites every scalar attribute (h5_writer.py:303-361)
@@ -200,7 +211,7 @@ SetFlag(s, b) ==                                   \* allow_delete
     /\ UNCHANGED <<kids, pg, reg, flink, fpg, held, mode, dirty, saved, w2, w2pg>>
 
 SetVal(d, v) ==                                    \* Data.values setter (data/data.py, numeric_data.py)
-    /\ Do("SetVal") /\ Writable /\ d \in Att \cap DS /\ mem[d].val # v /\ d \notin dirty
+    /\ Do("SetVal") /\ Writable /\ d \in Att \cap DS /\ mem[d].val # v /\ d \notin dirty /\ mem[d].name # VP
     /\ mem' = [mem EXCEPT ![d].val = v]
     /\ fnode' = [fnode EXCEPT ![d].val = v]
     /\ Ok("SetVal", [s |-> d, v |-> v], {d})
@@ -221,7 +232,7 @@ SetMeta(s, v) ==
 Move(s, p) ==
     /\ Do("Move") /\ Writable /\ s \in Att \cap ES /\ Sub(s) \cap dirty = {}
     /\ p \in Att /\ p # mem[s].par /\ p \notin Sub(s) /\ p \notin dirty
-    /\ IF s \in DS THEN p \in OS ELSE p \in {Root} \cup GS
+    /\ IF s \in DS THEN p \in OS /\ mem[s].name # VP ELSE p \in {Root} \cup GS
     /\ LET old == mem[s].par IN
          /\ mem' = [mem EXCEPT ![s].par = p]
          /\ kids' = [kids EXCEPT ![p] = @ \cup {s}, ![old] = @ \ {s}]
@@ -267,7 +278,7 @@ StripOpt(s) ==
 \* (object_base.py:182-231, property_group.py:76-98)
 PGsOf(o) == {p \in PS : pg[p].owner = o}
 AddToGroup(o, d, n) ==
-    /\ Do("AddToGroup") /\ Writable /\ o \in Att \cap OS /\ d \in kids[o] /\ d \notin dirty
+    /\ Do("AddToGroup") /\ Writable /\ o \in Att \cap OS /\ d \in kids[o] /\ d \notin dirty /\ mem[d].name # VP
     /\ LET same == {p \in PGsOf(o) : pg[p].name = n} IN
        IF same # {}
        THEN LET p == Lowest(same) IN
@@ -285,7 +296,7 @@ AddToGroup(o, d, n) ==
 \* a property group requested with an identifier that is in use - by a property group of the same or of another
 \* object, or by an entity of any kind - is refused without side effects (C06; property_group.py __init__)
 PGWithUid(o, d, n, u) ==
-    /\ Do("PGWithUid") /\ Writable /\ o \in Att \cap OS /\ d \in kids[o] /\ d \notin dirty
+    /\ Do("PGWithUid") /\ Writable /\ o \in Att \cap OS /\ d \in kids[o] /\ d \notin dirty /\ mem[d].name # VP
     /\ \A p \in PGsOf(o) : pg[p].name # n
     /\ \/ (u \in PS /\ pg[u].owner \in Att)
        \/ (u \in ES /\ u \in Att)
@@ -407,7 +418,7 @@ RemovePG(p) ==                                     \* ws.remove_entity(property_
 \* every copied child and every property group; property groups reference the copied children.
 Copy(s, p, deep) ==
     /\ Do("Copy") /\ Writable /\ s \in Att \cap ES /\ p \in Att /\ Sub(s) \cap dirty = {}
-    /\ IF s \in DS THEN p \in OS /\ deep ELSE p \in {Root} \cup GS
+    /\ IF s \in DS THEN p \in OS /\ deep /\ mem[s].name # VP ELSE p \in {Root} \cup GS
     /\ p \notin Sub(s) /\ p \notin dirty
     /\ LET S == IF deep THEN Sub(s) ELSE {s}
            SP == IF deep THEN {q \in PS : pg[q].owner \in S} ELSE {}
@@ -576,6 +587,7 @@ CallClosed(op) ==
 Next ==
     \/ \E p \in Cont, n \in Names : CreateGroup(p, n) \/ CreateObject(p, n)
     \/ \E o \in OS, n \in Names, v \in Vals : AddData(o, n, v)
+    \/ \E o \in OS : AddVisual(o)
     \/ \E u \in GS \cup OS, p \in Cont, n \in Names : CreateWithUid(u, p, n)
     \/ \E s \in ES, n \in Names : Rename(s, n)
     \/ \E s \in ES, b \in BOOLEAN : SetFlag(s, b)
